@@ -62,8 +62,8 @@ class Norm:
                 return self.N(("ite", v[1], ("index", v[2], i), ("index", v[3], i)), {})
             if v[0] == "sym":
                 return ("valof", v, i)
-            if v[0] == "bag":
-                self.opaque.append("lookup in a constructed dict / list")
+            if v[0] == "bag" and not (i[0] == "const" and isinstance(i[1], int)):
+                self.opaque.append("lookup in a constructed dict")
             return ("index", v, i)
         if tag == "get":
             d, k, dflt = self.N(t[1], sub), self.N(t[2], sub), self.N(t[3], sub)
@@ -149,8 +149,10 @@ class Norm:
                     return ("getempty", vals[0][1], vals[0][2])
                 if self.is_coll(vals[0]):
                     return vals[0]  # `x or set()` for a collection x
-            self.opaque.append("and/or used as a value")
-            return ("boolop", t[1], tuple(vals))
+            # python semantics: `a or b` is a when a is true, else b (`and` dually)
+            rest = t[2][1] if len(t[2]) == 2 else ("boolop", t[1], t[2][1:])
+            c = ("truthy", t[2][0])
+            return self.N(("ite", c, t[2][0], rest) if t[1] == "or" else ("ite", c, rest, t[2][0]), sub)
         if tag in ("attrcall", "partial", "bound", "module", "starred", "valof", "getnone", "getempty", "lookup", "bag", "idx"):
             return tuple(self.N(x, sub) if isinstance(x, tuple) else x for x in t) if tag != "bag" else t
         self.opaque.append(f"term {tag}")
@@ -497,6 +499,8 @@ def canon(t, names: dict, k: int) -> str:
     if not isinstance(t, tuple) or not t:
         return repr(t)
     tag = t[0]
+    if not isinstance(tag, str):
+        return "(" + ", ".join(canon(x, names, k) if isinstance(x, tuple) else repr(x) for x in t) + ")"
     if tag == "sym":
         return t[1]
     if tag == "const":
